@@ -1031,6 +1031,44 @@ def sweep_jsondata(ctx, rng, x):
     ctx.seen(['rt', cls.__name__, text], text != '{}')
     with quiet():
         report(ctx, judge_jsondata(x), cls.__name__)
+        report(ctx, judge_jsondata_independent(x), cls.__name__)
+
+
+def judge_jsondata_independent(x):
+    """Read-modify-write probe: a caller edits the decoded container in place (the ordinary idiom
+    `d = n.user_data; d[k] = v`); the same text decoded afterwards - by this object or by a new one - must still give the
+    value the text denotes (reference: the standard library's parser)."""
+    cls = type(x)
+    text = x.json
+    try:
+        ref = _dumps_stable(json.loads(text))
+        d = x.data
+    except Exception:
+        return 'skip'
+    if not isinstance(d, (dict, list)):
+        return 'skip'
+    w = {'kind': 'jsondata-independence', 'class': cls.__name__, 'text': short(text)}
+    if isinstance(d, dict):
+        d['__edited_by_caller__'] = [1]
+        for v in d.values():
+            if isinstance(v, list):
+                v.append('__edited__')
+            elif isinstance(v, dict):
+                v['__edited__'] = 1
+    else:
+        d.append('__edited_by_caller__')
+    if x.json != text:
+        return ('C03/jsondata-text-changed-by-editing-decoded-value', 'the stored text is what was stored', w)
+    for who, y in (('same object', x), ('new object', cls(text))):
+        try:
+            got = _dumps_stable(y.data)
+        except Exception as e:
+            got = f'{type(e).__name__}: {e}'
+        if got != ref:
+            w.update(who=who, decoded=short(got), expected=short(ref))
+            return ('C03/jsondata-decoded-value-shared-between-decodes',
+                    'a value decodes from its own encoding to an equal value - whatever a caller did to an earlier decoded copy', w)
+    return None
 
 
 def sweep_typedtuple(ctx, rng, t):
